@@ -24,8 +24,11 @@ PARTIAL = [
     "of the removed ones, given three geometric hypotheses about truthful predicates - removed simplices that share a facet lie on "
     "opposite sides of it and no facet is in more than two (OppositeSides), the new point sees every hole facet from the inside "
     "(star-shaped cavity), no removed simplex is degenerate (kernel-checked counterexample without it) - "
-    "bowyer_watson_preserves_volume_2d/_3d, add_point_interior_preserves_volume_2d/_3d. Still missing: that truthful predicates imply "
-    "those hypotheses (star-shapedness from the in-circle test, OppositeSides as an invariant), the hull-extension path, cover / "
+    "bowyer_watson_preserves_volume_2d/_3d, add_point_interior_preserves_volume_2d/_3d. Star-shapedness and non-degeneracy are DERIVED in "
+    "dimension 2 and 3 from truthful in-circle / in-sphere answers (the work-list asks every neighbour of a deleted simplex) plus a locally "
+    "Delaunay, genuine triangulation around the cavity (bowyer_watson_truthful_preserves_area_2d / _volume_3d; bridge to the "
+    "implementation's centre-radius test at eps = 0). Still missing: OppositeSides and local Delaunay as INVARIANTS of the insertion "
+    "sequence, the hull-extension path, cover / "
     "disjointness as sets, facet multiplicity of the new state, Delaunay. On the real code all clauses are audited exactly after "
     "every insertion, where they FAIL on degenerate / anisotropic inputs (known findings C03.tiling:*, "
     "C03.duplicate_rejected:vertex_located_in_foreign_simplex_within_eps). Proved for all oracles and sequences: index invariant, "
